@@ -52,6 +52,9 @@ func checkC20(c *Ctx) {
 	}
 	c.dedupInsert()
 	c.fanOut(r.HandOver)
+	// an UNSUBSCRIBE takes out the filters it names and no others: the tree drops a level only when it holds nothing
+	c.useRules(ruleT4)
+	c.pruneGuards()
 	// nothing but the server's messages reaches the callbacks: the teardown hands the will on only in the broker role
 	if r.HandOver != nil {
 		teardownOrder(c, "C20")
